@@ -106,6 +106,30 @@ fn insensitive_mixed_family(b: &mut Builder, tier: Tier) {
     }
 }
 
+/// choices with 15..34 alternatives (count boundaries at 16 and 32): the first alternative fails deep, the others are
+/// distinct two-character literals (shared by C01 and C10)
+pub fn wide_choice_family(b: &mut Builder, fam: &str) {
+    let inputs = InputSpec::Pieces { pieces: vec!["b".into(), "c".into(), "d01".into(), "d16".into(), "d17".into(), "d33".into(), "x".into()], max_len: 4 };
+    for n in [15usize, 16, 17, 18, 31, 32, 33, 34] {
+        let mut alts: Vec<Expr> = vec![seq(vec![lit("b"), lit("b"), lit("b"), lit("c")])];
+        for i in 1..n {
+            alts.push(lit(&format!("d{i:02}")));
+        }
+        for (bi, body) in [seq(vec![choice(alts.clone()), opt(lit("x"))]), seq(vec![star(choice(alts.clone())), lit("x")])].into_iter().enumerate() {
+            let _ = bi;
+            let g = root_grammar(vec![Directive::Export, Directive::Position, Directive::NoSkipWs], body, &[]);
+            add_if_wf(b, fam, g, &inputs);
+        }
+        // alternatives with fields (the choice keeps its own module, the result goes through the converter)
+        let mut falts: Vec<Expr> = vec![seq(vec![lit("b"), field("f", "X"), lit("c")])];
+        for i in 1..n {
+            falts.push(if i % 5 == 0 { seq(vec![lit(&format!("d{i:02}")), opt(field("f", "X"))]) } else { lit(&format!("d{i:02}")) });
+        }
+        let g = root_grammar(vec![Directive::Export, Directive::Position, Directive::NoSkipWs], seq(vec![choice(falts), opt(lit("x"))]), &c01_leaves());
+        add_if_wf(b, fam, g, &inputs);
+    }
+}
+
 /// long inputs: repetition counts around powers of two (chunked scanning, counters, small-buffer shortcuts)
 pub fn long_counts(tier: Tier) -> Vec<usize> {
     let mut v = vec![7, 8, 9, 15, 16, 17, 31, 32, 33, 63, 64, 65, 127, 128, 129, 255, 256, 257];
@@ -192,6 +216,16 @@ pub fn c01(tier: Tier) -> Vec<Case> {
     insensitive_family(&mut b, tier);
     insensitive_mixed_family(&mut b, tier);
     long_family(&mut b, tier);
+    wide_choice_family(&mut b, "wide-choice");
+    // @leftrec rules are part of the quantifier: the left-recursive corpus (thinned), judged on acceptance and consumed bytes
+    for (i, c) in super::e1b::c07(Tier::Quick).into_iter().enumerate() {
+        if c.family.starts_with("leftrec/usual") && i % 4 != 0 {
+            continue;
+        }
+        if b.add(&format!("peg/{}", c.family), c.grammar.clone(), c.inputs.clone()) {
+            b.last().note = c.note.clone();
+        }
+    }
     b.cases
 }
 
@@ -457,6 +491,10 @@ pub fn bundles() -> Vec<(&'static str, Expr)> {
         ("nullable-pair", opt(seq(vec![field("q", "Q"), field("r", "QL")]))),
         ("nullable-nested", opt(opt(field("q", "Q")))),
         ("nullable-closure-of-opt", seq(vec![opt(seq(vec![field("q", "Q"), field("f", "X")])), opt(seq(vec![field("r", "QL"), field("q", "Q")]))])),
+        // an empty alternative that is not the last one: ordered choice stops there
+        ("empty-middle", choice(vec![seq(vec![lit("c"), field("f", "X")]), seq(vec![]), field("g", "Y")])),
+        ("empty-middle-same-field", choice(vec![seq(vec![lit("c"), field("f", "X")]), seq(vec![]), field("f", "X")])),
+        ("empty-first", choice(vec![seq(vec![]), field("f", "X")])),
     ]
 }
 
@@ -613,7 +651,8 @@ pub fn c04(tier: Tier) -> Vec<Case> {
         field("s", "S"),
         field("t", "T"),
     ];
-    let small_atoms = vec![lit("é"), range('a', 'é'), ilit("ki"), field("c", "char"), field("s", "S")];
+    // `range('k', 'a')`: bounds in descending order (accepted by the compiler, matches nothing)
+    let small_atoms = vec![lit("é"), range('a', 'é'), ilit("ki"), field("c", "char"), field("s", "S"), range('k', 'a')];
     let (k_full, k_small, len) = match tier {
         Tier::Quick => (2, 3, 3),
         Tier::Thorough => (3, 4, 4),
@@ -634,7 +673,7 @@ pub fn c04(tier: Tier) -> Vec<Case> {
             }
             let g = root_grammar(dirs, e.clone(), &leaves);
             // multi-byte characters that Unicode (not peginator) calls white space, where the skipper looks
-            let spaces = InputSpec::Strings { alphabet: vec!['a', 'é', ' ', '\u{85}', '\u{a0}', '\u{2003}', '\u{2028}', '\u{3000}'], max_len: len.min(3) };
+            let spaces = InputSpec::Strings { alphabet: vec!['a', 'é', ' ', '\u{85}', '\u{a0}', '\u{2003}', '\u{2028}', '\u{3000}', '\u{feff}'], max_len: len.min(3) };
             let both = InputSpec::Multi(vec![inputs.clone(), spaces]);
             add_if_wf(&mut b, if noskip { "utf8/no_skip_ws" } else { "utf8/skip" }, g, &both);
         }
@@ -726,6 +765,29 @@ pub fn c08(tier: Tier) -> Vec<Case> {
     let mut b = Builder::new();
     directive_matrix(&mut b, "ws/directive-matrix", tier);
     nullable_alternatives_family(&mut b, "ws/nullable-alternatives", tier);
+    // two reachable includers of one rule with opposite skip modes and identical field lists, in both file orders
+    {
+        let inputs = InputSpec::Strings { alphabet: vec!['b', 'c', ' ', 'x'], max_len: if tier == Tier::Quick { 5 } else { 6 } };
+        for inc_body in [seq(vec![lit("b"), lit("c")]), seq(vec![lit("b"), opt(field("g", "X"))]), seq(vec![field("g", "X"), lit("c")])] {
+            for p_first in [true, false] {
+                for root_noskip in [false, true] {
+                    for root_body in [seq(vec![field("p", "P"), lit("x"), field("q", "Q")]), seq(vec![field("q", "Q"), lit("x"), field("p", "P")]), choice(vec![seq(vec![field("p", "P"), lit("x")]), field("q", "Q")])] {
+                        let p_rule = Rule::normal("P", vec![Directive::Position], inc("Inc"));
+                        let q_rule = Rule::normal("Q", vec![Directive::Position, Directive::NoSkipWs], inc("Inc"));
+                        let mut rules = if p_first { vec![p_rule, q_rule] } else { vec![q_rule, p_rule] };
+                        rules.push(Rule::normal("Inc", vec![], inc_body.clone()));
+                        rules.push(Rule::normal("X", vec![Directive::Position], seq(vec![lit("c"), opt(lit("c"))])));
+                        let mut dirs = vec![Directive::Export, Directive::Position];
+                        if root_noskip {
+                            dirs.push(Directive::NoSkipWs);
+                        }
+                        let g = root_grammar(dirs, root_body, &rules);
+                        add_if_wf(&mut b, "ws/two-includers", g, &inputs);
+                    }
+                }
+            }
+        }
+    }
     // long whitespace runs between and around two tokens, with the built-in skipper
     {
         let mut inputs: Vec<String> = Vec::new();
@@ -883,8 +945,12 @@ pub fn c09(tier: Tier) -> Vec<Case> {
         Tier::Quick => (3, 4),
         Tier::Thorough => (4, 5),
     };
-    let atoms = vec![field("f", "X"), field("s", "S"), field("e", "E"), field("n", "N"), lit("b"), lit("é"), field("t", "T"), field("o", "O"), field("so", "SO")];
-    let inputs = InputSpec::Strings { alphabet: vec!['b', 'c', 'é', ' '], max_len: len };
+    let atoms = vec![field("f", "X"), field("s", "S"), field("e", "E"), field("n", "N"), lit("b"), lit("é"), field("t", "T"), field("o", "O"), field("so", "SO"), rref("char")];
+    // U+FEFF (byte order mark, three bytes) may stand anywhere, also in front: it is an ordinary character
+    let inputs = InputSpec::Multi(vec![
+        InputSpec::Strings { alphabet: vec!['b', 'c', 'é', ' '], max_len: len },
+        InputSpec::Strings { alphabet: vec!['b', 'c', '\u{feff}', ' '], max_len: len.min(3) },
+    ]);
     let all = trees(&atoms, &NO_LOOKAHEAD_OPS, k);
     // every subset of {X, S, N(+its child), Root} marked @position; E is an enum override of @position rules
     for e in &all {
